@@ -165,7 +165,8 @@ Fixpoint cells_from (a : list cell) (lo : Z) (n : nat) : list cell :=
 Definition cell_val (c : cell) : value := match c with Some v => v | None => VNil end.
 
 (* ---------- upvalues, closures, frames ---------- *)
-Record upval := mkUv { uv_index : Z; uv_closed : bool; uv_value : cell }.
+(* uv_thread: the coroutine whose registry the open upvalue points into (Upvalue.reg) *)
+Record upval := mkUv { uv_index : Z; uv_closed : bool; uv_value : cell; uv_thread : nat }.
 
 Record closure := mkCl { cl_proto : xproto; cl_upvals : list nat; cl_env : nat }.
 
@@ -177,6 +178,14 @@ Record cframe := mkFrame {
 
 Definition is_go (f : fnref) : bool := match f with FnGo _ => true | FnLua _ => false end.
 
+(* a coroutine (an LState other than the running one): its registry, frames and open-upvalue list
+   while it is not running; Parent, wrapped, Dead; started = its currentFrame is not nil *)
+Record thread := mkTh {
+  th_reg : registry; th_stack : list cframe; th_uvcache : list nat;
+  th_parent : option nat; th_wrapped : bool; th_dead : bool; th_started : bool }.
+
+Definition dummy_th := mkTh (mkReg [] 0) [] [] None false true true.
+
 Record vstate := mkVS {
   vreg : registry;
   vstack : list cframe;          (* head = L.currentFrame *)
@@ -187,16 +196,42 @@ Record vstate := mkVS {
   vuds : list (option nat);
   vtrace : list (list value);
   vstrmt : option nat;
-  vglobal : nat                 (* L.G.Global *) }.
+  vglobal : nat;                (* L.G.Global *)
+  vthreads : list thread;       (* every LState; index 0 = the main thread; the entry of the running
+                                   thread holds stale registers (the live ones are vreg/vstack/vuvcache) *)
+  vcur : nat                    (* L.G.CurrentThread *) }.
 
-Definition with_reg s r := mkVS r (vstack s) (vuvcache s) (vuvs s) (vclos s) (vtabs s) (vuds s) (vtrace s) (vstrmt s) (vglobal s).
-Definition with_stack s k := mkVS (vreg s) k (vuvcache s) (vuvs s) (vclos s) (vtabs s) (vuds s) (vtrace s) (vstrmt s) (vglobal s).
-Definition with_uvcache s c := mkVS (vreg s) (vstack s) c (vuvs s) (vclos s) (vtabs s) (vuds s) (vtrace s) (vstrmt s) (vglobal s).
-Definition with_uvs s u := mkVS (vreg s) (vstack s) (vuvcache s) u (vclos s) (vtabs s) (vuds s) (vtrace s) (vstrmt s) (vglobal s).
-Definition with_vclos s c := mkVS (vreg s) (vstack s) (vuvcache s) (vuvs s) c (vtabs s) (vuds s) (vtrace s) (vstrmt s) (vglobal s).
-Definition with_vtabs s t := mkVS (vreg s) (vstack s) (vuvcache s) (vuvs s) (vclos s) t (vuds s) (vtrace s) (vstrmt s) (vglobal s).
-Definition with_vuds s u := mkVS (vreg s) (vstack s) (vuvcache s) (vuvs s) (vclos s) (vtabs s) u (vtrace s) (vstrmt s) (vglobal s).
-Definition with_vtrace s t := mkVS (vreg s) (vstack s) (vuvcache s) (vuvs s) (vclos s) (vtabs s) (vuds s) t (vstrmt s) (vglobal s).
+Definition with_reg s r := mkVS r (vstack s) (vuvcache s) (vuvs s) (vclos s) (vtabs s) (vuds s) (vtrace s) (vstrmt s) (vglobal s) (vthreads s) (vcur s).
+Definition with_stack s k := mkVS (vreg s) k (vuvcache s) (vuvs s) (vclos s) (vtabs s) (vuds s) (vtrace s) (vstrmt s) (vglobal s) (vthreads s) (vcur s).
+Definition with_uvcache s c := mkVS (vreg s) (vstack s) c (vuvs s) (vclos s) (vtabs s) (vuds s) (vtrace s) (vstrmt s) (vglobal s) (vthreads s) (vcur s).
+Definition with_uvs s u := mkVS (vreg s) (vstack s) (vuvcache s) u (vclos s) (vtabs s) (vuds s) (vtrace s) (vstrmt s) (vglobal s) (vthreads s) (vcur s).
+Definition with_vclos s c := mkVS (vreg s) (vstack s) (vuvcache s) (vuvs s) c (vtabs s) (vuds s) (vtrace s) (vstrmt s) (vglobal s) (vthreads s) (vcur s).
+Definition with_vtabs s t := mkVS (vreg s) (vstack s) (vuvcache s) (vuvs s) (vclos s) t (vuds s) (vtrace s) (vstrmt s) (vglobal s) (vthreads s) (vcur s).
+Definition with_vuds s u := mkVS (vreg s) (vstack s) (vuvcache s) (vuvs s) (vclos s) (vtabs s) u (vtrace s) (vstrmt s) (vglobal s) (vthreads s) (vcur s).
+Definition with_vtrace s t := mkVS (vreg s) (vstack s) (vuvcache s) (vuvs s) (vclos s) (vtabs s) (vuds s) t (vstrmt s) (vglobal s) (vthreads s) (vcur s).
+Definition with_threads s t := mkVS (vreg s) (vstack s) (vuvcache s) (vuvs s) (vclos s) (vtabs s) (vuds s) (vtrace s) (vstrmt s) (vglobal s) t (vcur s).
+
+(* the running thread's record, brought up to date *)
+Definition cur_thread (s : vstate) : thread :=
+  let t := nth (vcur s) (vthreads s) dummy_th in
+  mkTh (vreg s) (vstack s) (vuvcache s) (th_parent t) (th_wrapped t) (th_dead t) (th_started t).
+
+(* L.G.CurrentThread = t: the running thread's registers are stored, t's are loaded *)
+Definition switch_to (t : nat) (s : vstate) : vstate :=
+  let ths := set_nth (vthreads s) (vcur s) (cur_thread s) in
+  let th := nth t ths dummy_th in
+  mkVS (th_reg th) (th_stack th) (th_uvcache th) (vuvs s) (vclos s) (vtabs s) (vuds s) (vtrace s)
+       (vstrmt s) (vglobal s) ths t.
+
+(* a thread's record whether it is running or not *)
+Definition get_thread (s : vstate) (t : nat) : thread :=
+  if Nat.eqb t (vcur s) then cur_thread s else nth t (vthreads s) dummy_th.
+
+Definition set_thread (s : vstate) (t : nat) (th : thread) : vstate :=
+  if Nat.eqb t (vcur s)
+  then mkVS (th_reg th) (th_stack th) (th_uvcache th) (vuvs s) (vclos s) (vtabs s) (vuds s) (vtrace s)
+            (vstrmt s) (vglobal s) (set_nth (vthreads s) t th) (vcur s)
+  else with_threads s (set_nth (vthreads s) t th).
 
 (* ---------- results ---------- *)
 Inductive vres (A : Type) :=
@@ -243,7 +278,7 @@ Definition set_cur_frame (f : cframe) : VM unit :=
 
 Definition dummy_proto := XProto [] [] [] 0 0 0 0 [] 0.
 Definition dummy_cl := mkCl dummy_proto [] 0.
-Definition dummy_uv := mkUv 0 true None.
+Definition dummy_uv := mkUv 0 true None 0%nat.
 
 Definition get_closure (c : nat) : VM closure :=
   fun s => match nth_error (vclos s) c with Some cl => VRet cl s | None => VUnsup 102 end.
